@@ -29,12 +29,33 @@ func LinkIndex(l ipld.Link) int {
 type DAG struct {
 	Nodes []datamodel.Node
 	Kids  [][]int
+	Nest  [][]int
+}
+
+// LinkPath returns the path of the j-th link of block i given the path at
+// which block i was loaded.
+func (d *DAG) LinkPath(parent string, i, j int) string {
+	p := parent
+	add := func(seg string) {
+		if p == "" {
+			p = seg
+		} else {
+			p += "/" + seg
+		}
+	}
+	add(string(rune('a' + j)))
+	if d.Nest != nil && d.Nest[i] != nil {
+		for l := 0; l < d.Nest[i][j]; l++ {
+			add("n")
+		}
+	}
+	return p
 }
 
 // BuildDAG builds the table from a child list.  nest[i][j] (optional) is the
 // number of inline map levels between block i and its j-th link.
 func BuildDAG(kids [][]int, nest [][]int) *DAG {
-	d := &DAG{Nodes: make([]datamodel.Node, len(kids)), Kids: kids}
+	d := &DAG{Nodes: make([]datamodel.Node, len(kids)), Kids: kids, Nest: nest}
 	for i := len(kids) - 1; i >= 0; i-- {
 		i := i
 		d.Nodes[i] = fluent.MustBuildMap(basicnode.Prototype.Map, int64(len(kids[i])+1), func(na fluent.MapAssembler) {
